@@ -575,6 +575,23 @@ func (in *Interp) intBinop(op token.Token, xb, yb *types.Basic, x, y *smt.Term) 
 		if y.S.K != smt.KInt {
 			y = in.toInt(y, yb)
 		}
+		if x.IsConst() && y.IsConst() {
+			// bitwise operators on two constants: two's complement semantics of math/big, then wrap into the type
+			var r *big.Int
+			switch op {
+			case token.AND:
+				r = new(big.Int).And(x.V, y.V)
+			case token.OR:
+				r = new(big.Int).Or(x.V, y.V)
+			case token.XOR:
+				r = new(big.Int).Xor(x.V, y.V)
+			case token.AND_NOT:
+				r = new(big.Int).AndNot(x.V, y.V)
+			}
+			if r != nil {
+				return in.wrap(c.Int(r), xb)
+			}
+		}
 		switch op {
 		case token.ADD:
 			return in.wrap(c.IAdd(x, y), xb)
